@@ -98,7 +98,18 @@ def check(chk):
     sk = m.func('OrderedMapSerializedKey._serialize_key')
     chk.judge('self.cass_key_type.serialize(key, self.protocol_version)' in src(sk), 'C33.key', sk, 'map-column keys are identified by their CQL encoding', 'key identity changed')
 
-    # SortedSet
+    # SortedSet: only the in-place operators hand back the receiver; everything else that returns a set returns a new one
+    chk.rule('C33.fresh', 'SortedSet: `return self` only in __iand__ / __ior__ / __isub__ / __ixor__; the binary operations and their helpers (_diff, _intersect, union ...) never return the receiver or the argument itself')
+    INPLACE = ('__iand__', '__ior__', '__isub__', '__ixor__')
+    nfresh = 0
+    for f_ in m.methods('SortedSet'):
+        for r_ in body_walk(f_):
+            if isinstance(r_, ast.Return) and r_.value is not None and isinstance(r_.value, ast.Name) and r_.value.id in ('self', 'other'):
+                nfresh += 1
+                chk.judge(f_.name in INPLACE and r_.value.id == 'self', 'C33.fresh', r_, 'SortedSet.%s returns %s' % (f_.name, r_.value.id),
+                          'SortedSet.%s can return %s itself: the result of a binary operation (a - b, a | b ...) is then the same object as an operand, and a later in-place change of the '
+                          'result also changes the operand' % (f_.name, 'the receiver' if r_.value.id == 'self' else 'its argument'))
+    chk.require('C33.fresh', 4)
     add = m.func('SortedSet.add')
     inserts = [n for q, f in m.functions() if q.startswith('SortedSet.') for n in body_walk(f) if isinstance(n, ast.Call) and src(n.func) == 'self._items.insert']
     chk.judge(len(inserts) == 1 and qual_of(inserts[0]) == 'SortedSet.add', 'C33.insert', add, 'the only positional insert into _items is in add()', 'positional inserts: %s' % [qual_of(i) for i in inserts])
